@@ -11,6 +11,8 @@ open Model.Divisor Model.Composition WinterProofs.C16L WinterProofs.C17L
 
 variable {F : Type} [Field F]
 
+instance fact17 : Fact (Nat.Prime 17) := ⟨by decide⟩
+
 -- ============================================================================================
 -- (d) column split  H(X) = Σ_i X^(i·n) H_i(X)  and the OOD recombination
 -- ============================================================================================
@@ -75,9 +77,9 @@ theorem split_sizes (draws : List α) (nm na bm ba : ℕ) (h : nm + na + (bm + b
     (splitBoundary c.2.1 bm).1.length = bm ∧ (splitBoundary c.2.1 bm).2.length = ba ∧
     (splitTransition c.1 nm).1 ++ (splitTransition c.1 nm).2 = c.1 ∧
     (splitBoundary c.2.1 bm).1 ++ (splitBoundary c.2.1 bm).2 = c.2.1 := by
-  simp only [drawCoefficients, splitTransition, splitBoundary, List.length_take, List.length_drop,
-    List.take_append_drop]
-  omega
+  simp only [drawCoefficients, splitTransition, splitBoundary]
+  refine ⟨?_, ?_, ?_, ?_, List.take_append_drop _ _, List.take_append_drop _ _⟩ <;>
+    simp only [List.length_take, List.length_drop] <;> omega
 
 example : drawCoefficients [1, 2, 3, 4, 5, 6, 7] 3 2 = ([1, 2, 3], [4, 5], [6, 7]) := rfl
 
@@ -164,10 +166,10 @@ theorem columns_le_blowup (ds : List Degree) (n e B : ℕ) (hn : 0 < n) (hB : 1 
   simp only
   have hH : ds.foldl (fun h d => if d.evalDegree n > h then d.evalDegree n else h) 0 - (n - e) < n * B := by
     rcases foldl_max_mem (fun d => d.evalDegree n) ds 0 with h0 | ⟨d, hd, hm⟩
-    · simp only at h0; rw [h0]
+    · rw [h0]
       have : 0 < n * B := Nat.mul_pos hn hB
       omega
-    · simp only at hm; rw [hm]; exact h d hd
+    · rw [hm]; exact h d hd
   generalize ds.foldl (fun h d => if d.evalDegree n > h then d.evalDegree n else h) 0 = H at *
   have : (H - (n - e)) / n < B := (Nat.div_lt_iff_lt_mul hn).mpr (by rw [Nat.mul_comm]; exact hH)
   exact max_le (by omega) hB
